@@ -47,7 +47,16 @@ def _fiber_safe(x, a):
 
 
 def _bw(L, f):
-    return None if f is None else f * L.gv.fs
+    """Bandwidth argument: None, a fraction of the current fs, or an absolute value ["abs", Hz]
+    (absolute values collide across grids - the case a memoised design keyed on too little gets wrong)."""
+    if f is None:
+        return None
+    if isinstance(f, (list, tuple)):
+        return float(f[1])
+    return f * L.gv.fs
+
+
+ABS_BW = [["abs", 1e9], ["abs", 2e9], ["abs", 5e9], ["abs", 10e9]]
 
 
 def _eye_ok(e):
@@ -81,7 +90,7 @@ class _:
     def gen(r):
         sh = r.choice(["nrz", "rz", "gaussian", "rect"])
         a = {"bias": r.choice([0.0, 0.5, -1.0]), "Vout": r.choice([1.0, 2.5, 0.3]), "shape": sh,
-             "BWf": r.choice([None, None, 0.2, 0.4])}
+             "BWf": r.choice([None, None, 0.2, 0.4] + ABS_BW[:2])}
         if sh == "gaussian":
             a.update({"m": r.choice([1, 2, 3]), "c": r.choice([0.0, 0.5]), "Tf": r.choice([0.5, 1.0, 1.5])})
         return a
@@ -127,7 +136,7 @@ class _:
     gen = staticmethod(lambda r: {"drive": r.choice(["float", "arr", "es", "pool"]), "v": r.choice([2.5, 0.0, -1.0]),
                                   "bias": r.choice([0.0, 2.5]), "Vpi": r.choice([5.0, 3.3]), "loss": r.choice([0.0, 3.0]),
                                   "ER": r.choice([26.0, 10.0, 40.0]), "pol": r.choice(["x", "y"]),
-                                  "BWf": r.choice([None, None, 0.3]), "dseed": r.getrandbits(31)})
+                                  "BWf": r.choice([None, None, 0.3] + ABS_BW[2:]), "dseed": r.getrandbits(31)})
 
     @staticmethod
     def run(L, a, i):
@@ -145,13 +154,14 @@ class _:
 
 @entry("BPF", needs=("O",))
 class _:
-    gen = staticmethod(lambda r: {"BWf": r.choice([0.1, 0.3, 0.6]), "n": r.choice([2, 4, 6])})
-    run = staticmethod(lambda L, a, i: L.dv.BPF(i["O"], a["BWf"] * L.gv.fs, a["n"]))
+    gen = staticmethod(lambda r: {"BWf": r.choice([0.1, 0.3, 0.6] + ABS_BW), "n": r.choice([2, 4, 6])})
+    run = staticmethod(lambda L, a, i: L.dv.BPF(i["O"], _bw(L, a["BWf"]), a["n"]))
 
 
 @entry("EDFA", needs=("O",), flags=("stoch",))
 class _:
-    gen = staticmethod(lambda r: {"G": r.choice([0, 10, 20.0]), "NF": r.choice([4, 5.5]), "BWf": r.choice([None, 0.3])})
+    gen = staticmethod(lambda r: {"G": r.choice([0, 10, 20.0]), "NF": r.choice([4, 5.5]),
+                                  "BWf": r.choice([None, 0.3] + ABS_BW[1:3])})
     run = staticmethod(lambda L, a, i: L.dv.EDFA(i["O"], a["G"], a["NF"], _bw(L, a["BWf"])))
 
 
@@ -176,22 +186,22 @@ class _:
 
 @entry("LPF", needs=("E",))
 class _:
-    gen = staticmethod(lambda r: {"BWf": r.choice([0.05, 0.2, 0.4]), "n": r.choice([2, 4]), "arr": r.random() < 0.3,
+    gen = staticmethod(lambda r: {"BWf": r.choice([0.05, 0.2, 0.4] + ABS_BW), "n": r.choice([2, 4]), "arr": r.random() < 0.3,
                                   "fs": r.choice([None, None, "gv"]), "retH": r.random() < 0.25})
 
     @staticmethod
     def run(L, a, i):
         x = i["E"]
         arg = np.asarray(x.signal).real.copy() if a["arr"] else x
-        return L.dv.LPF(arg, a["BWf"] * L.gv.fs, a["n"], None if a["fs"] is None else L.gv.fs, a["retH"])
+        return L.dv.LPF(arg, _bw(L, a["BWf"]), a["n"], None if a["fs"] is None else L.gv.fs, a["retH"])
 
 
 @entry("PD", needs=("O",), flags=("stoch",))
 class _:
-    gen = staticmethod(lambda r: {"BWf": r.choice([0.1, 0.3, 0.45]), "r": r.choice([1.0, 0.7]), "T": r.choice([300.0, 100]),
+    gen = staticmethod(lambda r: {"BWf": r.choice([0.1, 0.3, 0.45] + ABS_BW), "r": r.choice([1.0, 0.7]), "T": r.choice([300.0, 100]),
                                   "R": r.choice([50.0, 1e3]), "inc": r.choice(["all", "ase-only", "thermal-shot", "Shot-Only"]),
                                   "idk": r.choice([10e-9, 0.0]), "Fn": r.choice([0, 3.0])})
-    run = staticmethod(lambda L, a, i: L.dv.PD(i["O"], a["BWf"] * L.gv.fs, a["r"], a["T"], a["R"], a["inc"], a["idk"],
+    run = staticmethod(lambda L, a, i: L.dv.PD(i["O"], _bw(L, a["BWf"]), a["r"], a["T"], a["R"], a["inc"], a["idk"],
                                                a["Fn"]))
 
 
